@@ -17,7 +17,7 @@ THEOREMS = [
 ]
 RULE = ("stage 1: for every registered constructor, schema-directed values (all flag-group presence patterns for "
         "constructors with at most five conditional fields, type-directed random values otherwise, every enum "
-        "member, every conditional bytes / vector field present with length 0 (with and without the other groups), vectors of 255, 256, 257, 1023, 1024, 1025, 3000 (thorough: up to 10000) elements of every element kind) are marshalled by the real code and by the Lean schema-defined serialisation (which reads only the "
+        "member, every conditional bytes / vector field present with length 0 (with and without the other groups), vectors of 70 and 300 (thorough: 33 to 1100) objects each holding an empty vector, vectors of 255, 256, 257, 1023, 1024, 1025, 3000 (thorough: up to 10000) elements of every element kind) are marshalled by the real code and by the Lean schema-defined serialisation (which reads only the "
         "schema line) and the bytes compared; stage 2: the schema-defined bytes are decoded by the real code and "
         "must give the value back, nil-sensitively for conditional slices (present and empty = empty non-nil, absent = nil); "
         "for every conditional string / int / long / double / Bool field the schema bytes with that field present "
